@@ -14,6 +14,34 @@ import validators
 import field_validation
 
 
+UNCOND = {}
+
+
+def _vtext(fn, e):
+    from astu import canon_inl
+    return txt(e, canon_inl(fn)).replace(" ", "")[:120]
+
+
+def _base_of(fn, kind, l, root, cenv, env, av):
+    # the assigned target: member path below the local object, the object by its identity
+    path = []
+    x = l
+    while isinstance(x, dict) and x.get("k") == "Member":
+        path.append(x.get("f"))
+        x = strip_all(x.get("b") or {})
+    ident = cenv.get(root.get("d"), root.get("n"))
+    ident = ident if isinstance(ident, str) else root.get("n")
+    if not path and root.get("d") in av and isinstance(ident, str) and ident.startswith("="):
+        # a plain local is named by everything that flows into it (not by the spelling of its first value): `x = img; if (bad(x))
+        # x = f();` and `x = bad(img) ? f() : img` name the same local
+        ti, tc = [], []
+        for val in av[root["d"]]:
+            triggers.idc(val, env, ti, tc, 0, True)
+        ident = "{" + ",".join(sorted(set(str(x) for x in ti if x))) + "|" + ",".join(sorted(set(str(x) for x in tc))) + "}"
+    tgt = ".".join([ident] + list(reversed(path)))
+    return "%s::%s(%s)->set %s" % (short(fn["rect"]), fn["name"], kind, tgt)
+
+
 def _is_read(n):
     nm = n.get("cname") or ""
     return n.get("k") == "Call" and (nm in ("read", "copy_from_mem", "ignore", "memcpy", "read_big_endian") or nm.startswith(("deserialize", "read_", "copy_from")))
@@ -22,6 +50,7 @@ def _is_read(n):
 def inventory(facts):
     fns = functions_by(facts)
     triggers.set_helpers(fns)
+    UNCOND.clear()
     rows = {}
     for pat, fn0 in sorted(fns.items()):
         if fn0["name"] not in validators.READER_NAMES or fn0.get("body") is None or not fn0.get("params") or not fn0.get("rect"):
@@ -60,45 +89,74 @@ def inventory(facts):
                         return
                     sites.append((n, e, l, root))
         walk(fn["body"], v)
+
+        # `T x = c ? a : b;` outside loops is `T x; if (c) x = a; else x = b;`: one conditional assignment per arm
+        def vd(n):
+            if n.get("k") == "Decl" and id(n) not in in_loop_decl:
+                for var in n.get("vars", []):
+                    ini = strip_all(var.get("init") or {})
+                    if ini.get("k") == "Cond" and "d" in var:
+                        for arm, neg in ((ini["a"], False), (ini["e"], True)):
+                            hit = [False]
+                            walk(arm, lambda x: hit.__setitem__(0, True) if _is_read(x) else None)
+                            if hit[0]:
+                                continue
+                            ref = {"k": "Ref", "d": var["d"], "dk": "local", "n": var.get("n"), "t": var.get("t"), "loc": var.get("loc")}
+                            sites.append((n, {"k": "Assign", "op": "=", "l": ref, "r": arm, "loc": n.get("loc"), "cond": (ini["c"], neg)}, ref, ref))
+        def vu(n):
+            if n.get("k") == "Decl" and id(n) not in in_loop_decl:
+                for var in n.get("vars", []):
+                    ini = strip_all(var.get("init") or {})
+                    if ini and ini.get("k") != "Cond" and "d" in var:
+                        ref = {"k": "Ref", "d": var["d"], "dk": "local", "n": var.get("n"), "t": var.get("t")}
+                        UNCOND.setdefault(_base_of(fn, kind, ref, ref, cenv, env, triggers.assigned_value_sets(fn)), set()).add(_vtext(fn, var["init"]))
+        in_loop_decl = set()
+        walk(fn["body"], lambda n: walk(n.get("b"), lambda x: in_loop_decl.add(id(x)) if x.get("k") == "Decl" else None) if n.get("k") in ("For", "While", "Do", "RangeFor") else None)
+        walk(fn["body"], vd)
+        walk(fn["body"], vu)
+        av = triggers.assigned_value_sets(fn)
         sites.sort(key=lambda s: triggers._loc_key(s[0]))
         cnt = {}
         for n, e, l, root in sites:
             lits = []
-            for lit, origin in reach_tagged(fn["body"], n):
+            extra = []
+            if e.get("cond") is not None:
+                from astu import literals, negate
+                c0, neg0 = e["cond"]
+                extra = [(l0, "cond") for l0 in (negate(c0) if neg0 else literals(c0))]
+            env_site = env
+            if l.get("k") == "Ref" and l.get("d") in av:
+                others = [val for val in av[l["d"]] if val is not e.get("r")]
+                if others and len(others) < len(av[l["d"]]):
+                    env_site = dict(env)
+                    env_site[l["d"]] = ("expr", others if len(others) > 1 else others[0], None)     # the test reads the earlier value
+            for lit, origin in list(reach_tagged(fn["body"], n)) + extra:
                 lit = strip(lit)
                 if origin in ("after-throw", "loop"):
                     continue
                 if isinstance(lit, dict) and lit.get("k") == "Bin" and lit.get("op") in triggers.FLIP:
-                    op, ids, consts, text = triggers.parts(lit, env)
+                    op, ids, consts, text = triggers.parts(lit, env_site)
                     if not any(d["text"] == text for d in lits):
                         lits.append({"op": op, "ids": ids, "consts": consts, "text": text})
                 elif isinstance(lit, dict):
                     neg = lit.get("k") == "Un" and lit.get("op") == "!"
                     core = strip(lit["e"]) if neg else lit
                     ids, consts = [], []
-                    triggers.idc(core, env, ids, consts)
+                    triggers.idc(core, env_site, ids, consts)
                     text = ("!" if neg else "") + txt(core)
                     if not any(d["text"] == text for d in lits):
                         lits.append({"op": "not" if neg else "is", "ids": sorted(str(x) for x in ids if x), "consts": sorted(consts, key=lambda x: (str(type(x)), x)), "text": text})
             if not lits:
+                UNCOND.setdefault(_base_of(fn, kind, l, root, cenv, env, av), set()).add(_vtext(fn, e["r"]))
                 continue
             lits = triggers._merge_relations(lits)
             if lits is None:
                 continue
-            # the assigned target: member path below the local object, the object by its identity
-            path = []
-            x = l
-            while isinstance(x, dict) and x.get("k") == "Member":
-                path.append(x.get("f"))
-                x = strip_all(x.get("b") or {})
-            ident = cenv.get(root.get("d"), root.get("n"))
-            ident = ident if isinstance(ident, str) else root.get("n")
-            tgt = ".".join([ident] + list(reversed(path)))
-            base = "%s::%s(%s)->set %s" % (short(fn["rect"]), fn["name"], kind, tgt)
+            base = _base_of(fn, kind, l, root, cenv, env, av)
             i = cnt.get(base, 0)
             cnt[base] = i + 1
             lits.sort(key=lambda d: (d["ids"], d["text"]))
-            rows["%s#%d" % (base, i)] = {"lits": lits, "text": " && ".join(d["text"] for d in lits), "loc": n.get("loc"), "fn": fn["qname"], "value": txt(e["r"])[:80]}
+            rows["%s#%d" % (base, i)] = {"lits": lits, "text": " && ".join(d["text"] for d in lits), "loc": n.get("loc"), "fn": fn["qname"], "value": _vtext(fn, e["r"])}
     return rows
 
 
@@ -125,6 +183,9 @@ def obligations(facts, families=None):
         for key in pending:
             want = sp[key]
             k = "assign:" + key
+            if not free and want.get("value") and want["value"] in UNCOND.get(base, ()):
+                out.append(ob("reader.assign", k, "", "discharged", "the value `%s` is now the default of %s, overridden under the complementary condition" % (want["value"][:60], base.split("->set ")[1][:60]), ""))
+                continue
             if not free:
                 out.append(ob("reader.assign", k, "", "unrecognised", "the conditional assignment `%s` under (%s) is no longer found in this form (refactored?): re-review and update spec/reader_assigns.json" % (key, want["text"]), ""))
                 continue
